@@ -97,7 +97,7 @@ func c08Wrap64(s string, rng *rand.Rand) string {
 // c08CertText concretises a certificate class for descriptor idx; ok=false means "no X509Certificate element".
 func c08CertText(class string, idx int, rng *rand.Rand) (string, bool) {
 	switch class {
-	case "validRSA":
+	case "validRSA", "validRSAChain":
 		return c08Wrap64(key(c08KeyByIdx[idx]).CertB64(), rng), true
 	case "validEC":
 		return c08Wrap64(key(c08ECByIdx[idx]).CertB64(), rng), true
@@ -159,6 +159,10 @@ func c08MetadataXML(layout []c08Desc, rng *rand.Rand) []byte {
 		c := kd.CreateElement("ds:KeyInfo").CreateElement("ds:X509Data").CreateElement("ds:X509Certificate")
 		if txt != "" || rng.Intn(2) == 0 {
 			c.SetText(txt) // (empty text: <X509Certificate></X509Certificate> or <X509Certificate/>)
+		}
+		if d.Cert == "validRSAChain" {
+			// the rest of the chain: a certificate whose private key the SP does not hold
+			c.Parent().CreateElement("ds:X509Certificate").SetText(c08Wrap64(key("rsa3072").CertB64(), rng))
 		}
 	}
 	acs := sd.CreateElement("md:AssertionConsumerService")
@@ -345,7 +349,7 @@ func c08Recover(xmlBytes []byte, m c08Markers) (c08Recovered, error) {
 	if ek != nil {
 		r.Wrapped, _ = xeCipherValue(ek)
 	}
-	for _, name := range []string{"sp", "sp2", "idpenc", "att", "idp1"} {
+	for _, name := range []string{"sp", "sp2", "idpenc", "att", "idp1", "rsa3072"} {
 		priv, ok := key(name).Key.(*rsa.PrivateKey)
 		if !ok {
 			continue
@@ -386,7 +390,7 @@ func c08IdpRun(layout []c08Desc, mdXML []byte, rng *rand.Rand) (c08IdpObs, bool)
 	o.First = c08Respond(md, session, m)
 	advertised := map[string]bool{}
 	for i, d := range layout {
-		if (d.Use == "encryption" || d.Use == "omitted") && d.Cert == "validRSA" {
+		if (d.Use == "encryption" || d.Use == "omitted") && (d.Cert == "validRSA" || d.Cert == "validRSAChain") {
 			advertised[c08KeyByIdx[i]] = true
 		}
 	}
